@@ -4,6 +4,7 @@ import flow
 import harness as H
 import heat_corr as HC
 import heat_oracle as HO
+import hutchens1_corr as H1C
 
 # defects of the unchanged tree recorded in KNOWN_FINDINGS.json: which (solver tag, check) pairs of the oracle each explains
 COVERS = {
@@ -61,6 +62,9 @@ def finding(fid):
 
 UNITS = [
     flow.Unit('rod-bc1-4-sandwiches', groups=['heat'], props=['props/C14_rod.v'], custom_corr=HC.unit_corr, oracle=oracle),
+    flow.Unit('hutchens1', groups=['hutchens1'], props=['props/C14_hutchens1.v'], custom_corr=H1C.unit_corr, oracle=oracle,
+              note='Hutchens 1: spherical heat equation at every r <> 0, surface value Tb, centre value = limit of nearby values, for every Nsum (theorems on the '
+                   'regenerated series, np.where branch included); the initial condition holds only in the limit Nsum -> infinity (oracle)'),
     flow.Unit('heat-real-code', groups=[], props=[], oracle=oracle, always_oracle=True,
               findings=[finding(f) for f in ('rod1d-robin-series', 'rectangle-sides-not-insulated', 'hutchens1-centre-value', 'hutchens2-running-sum')],
               note='finite-difference check of PDE / boundary / initial / steady behaviour on the real code for every heat solver, including those '
